@@ -306,8 +306,8 @@ def run(tier):
     ig = gen_init.Grammar(["Sa", "La", "ret", "Sb", "Lb"], ["cin"])
     inits = []
     for k, b in ig.programs(4 if tier == "quick" else 5):
-        # (lenient oracle: code behind an exit counts as reachable - a read sitting in dead code may be refused)
-        if gen_init.uses_var(b) and "'ret'" in str(b) and not gen_init.uninit_vars(b, lenient=True)[0]:
+        # (programs with dead code are left out: a read sitting behind an exit may be refused)
+        if gen_init.uses_var(b) and "'ret'" in str(b) and not gen_init.uninit_vars(b)[0] and not gen_init.has_dead_code(b):
             for placement in ("main", "sub"):
                 inits.append((k, gen_init.make_program(b, placement), "init-exit", True, 4 if placement == "sub" else 2, {}))
     rep.bounds["initialised_with_exits"] = len(inits)
